@@ -61,6 +61,40 @@ def battery(fqe, seed, tier):
         w.normalize()
         out[f"hi-evolve:{norb}"] = enc(w.time_evolve(0.3, ham).get_coeff((1, 1)))
         out[f"hi-rdm:{norb}"] = enc(numpy.asarray(w.rdm("i^ j"))[[0, hi, hi], [hi, 0, hi]])
+    # top-of-range orbitals with several electrons per spin channel: operator-string maps and sparse apply
+    for norb, na, nb in ([(64, 2, 1), (63, 2, 0)] if quick else [(64, 2, 1), (63, 2, 0), (63, 3, 0), (63, 2, 2), (33, 3, 1), (32, 2, 1)]):
+        w = fqe.Wavefunction([[na + nb, na - nb, norb]])
+        g = w.sector((na + nb, na - nb)).get_fcigraph()
+        hi = norb - 1
+        for dag, undag in [([hi], [hi]), ([hi], [0]), ([0], [hi]), ([hi, 1], [hi - 1, 0]), ([hi - 1], [hi]), ([hi, hi - 1], [hi, hi - 1])]:
+            if len(dag) > na:
+                continue
+            res = numpy.zeros((g.lena(), 3), dtype=numpy.uint64)
+            cnt = g.make_mapping_each(res, True, dag, undag)
+            out[f"mapeach:{norb}:{na}:{dag}:{undag}"] = enc([int(cnt)] + [int(x) for x in res[:cnt].ravel()][:3000])
+        U.random_fill(w, rng, zero_p=0.0)
+        for tag, op in [("num", FermionOperator(((2 * hi, 1), (2 * hi, 0)), 1.0)),
+                        ("hop", FermionOperator(((2 * hi, 1), (2, 0)), 1.0) + FermionOperator(((2, 1), (2 * hi, 0)), 1.0))]:
+            ham = fqe.get_sparse_hamiltonian(op)
+            res = w.apply(ham).get_coeff((na + nb, na - nb))
+            out[f"hi-multi-apply:{tag}:{norb}:{na}:{nb}"] = enc(res.ravel()[:: max(1, res.size // 4000)])
+    # sectors wider than the internal column batch of the C kernels (450 columns): one, two and three batches
+    wide = [(11, 1, 5), (11, 5, 1)] if quick else [(11, 1, 5), (11, 5, 1), (12, 4, 1), (12, 1, 4), (13, 1, 5), (13, 5, 1), (12, 6, 1)]
+    for norb, na, nb in wide:
+        w = fqe.Wavefunction([[na + nb, na - nb, norb]])
+        U.random_fill(w, rng, zero_p=0.0)
+        nrng = numpy.random.RandomState(rng.randrange(2**31))
+        a = nrng.standard_normal((norb, norb)) + 1j * nrng.standard_normal((norb, norb))
+        h = (a + a.conj().T) / 4.0
+        q, _ = numpy.linalg.qr(a)
+        _, _, _, t = copy.deepcopy(w).transform(q.copy())
+        res = t.get_coeff((na + nb, na - nb))
+        out[f"wide-transform:{norb}:{na}:{nb}"] = enc(res.ravel()[:: max(1, res.size // 6000)])
+        w.normalize()
+        res = w.time_evolve(0.2, fqe.get_restricted_hamiltonian((h,))).get_coeff((na + nb, na - nb))
+        out[f"wide-evolve:{norb}:{na}:{nb}"] = enc(res.ravel()[:: max(1, res.size // 6000)])
+        res = w.apply(fqe.get_restricted_hamiltonian((h,))).get_coeff((na + nb, na - nb))
+        out[f"wide-apply:{norb}:{na}:{nb}"] = enc(res.ravel()[:: max(1, res.size // 6000)])
     # apply / evolve / rdm / cirq on random small cases
     ncases = 40 if quick else 400
     for case in range(ncases):
@@ -154,7 +188,7 @@ def run(ctx):
             if va.size != vb.size:
                 ctx.disagree(f"cross:{fam}:dtype", f"{name}: real/complex mismatch", {"name": name})
                 continue
-        tol = 0.0 if fam in ("strings", "gen", "map", "dexc", "bits") else 1e-10
+        tol = 0.0 if fam in ("strings", "gen", "map", "dexc", "bits", "mapeach") else 1e-10
         scale = max(1.0, float(numpy.abs(va).max()) if va.size else 1.0)
         diff = float(numpy.abs(va - vb).max()) if va.size else 0.0
         if diff > tol * scale:
